@@ -56,12 +56,13 @@ Fixpoint leaf_class (e : err) : option class :=
   | Plain _ => None
   | Status _ _ => None
   | Wrap _ e' => leaf_class e'
+  | Glue _ e' => leaf_class e'
   | Embed _ e' => leaf_class e'
   end.
 
 Lemma is_chain_leaf (e : err) (c : class) :
   is_chain e c = match leaf_class e with Some c0 => class_eqb c0 c | None => false end.
-Proof. induction e as [c0|t|k m|t e IH|o e IH]; cbn [is_chain leaf_class]; auto. Qed.
+Proof. induction e as [c0|t|k m|t e IH|t e IH|o e IH]; cbn [is_chain leaf_class]; auto. Qed.
 
 (** at most one class matches a chain: the order in which GRPCStatusCode
     visits the rows of errorsToCode cannot matter *)
@@ -76,31 +77,31 @@ Lemma status_code_inner (e : err) :
   status_code e = match inner_status e with Some k => k | None => Unknown end.
 Proof.
   unfold status_code, from_error.
-  destruct e as [c|t|k m|t e|o e]; cbn [inner_status fst]; try reflexivity;
+  destruct e as [c|t|k m|t e|t e|o e]; cbn [inner_status fst]; try reflexivity;
     destruct (inner_status e); reflexivity.
 Qed.
 
 Lemma from_error_not_status (e : err) :
   inner_status e = None -> from_error e = (Unknown, message e).
 Proof.
-  intros H. unfold from_error. destruct e as [c|t|k m|t e|o e]; try reflexivity;
+  intros H. unfold from_error. destruct e as [c|t|k m|t e|t e|o e]; try reflexivity;
     try (rewrite H; reflexivity). discriminate H.
 Qed.
 
 (* a chain ends either in a sentinel or in a status error *)
 Lemma inner_status_no_class (e : err) (k : code) :
   inner_status e = Some k -> leaf_class e = None.
-Proof. induction e as [c0|t|k0 m|t e IH|o e IH]; cbn; auto; discriminate. Qed.
+Proof. induction e as [c0|t|k0 m|t e IH|t e IH|o e IH]; cbn; auto; discriminate. Qed.
 
 Lemma is_chain_plug (x : ctx) (e : err) (c : class) :
   is_chain (plug x e) c = is_chain e c.
-Proof. induction x as [|[t|o] r IH]; cbn [plug is_chain]; auto. Qed.
+Proof. induction x as [|[t|t|o] r IH]; cbn [plug is_chain]; auto. Qed.
 
 Lemma leaf_class_plug (x : ctx) (e : err) : leaf_class (plug x e) = leaf_class e.
-Proof. induction x as [|[t|o] r IH]; cbn [plug leaf_class]; auto. Qed.
+Proof. induction x as [|[t|t|o] r IH]; cbn [plug leaf_class]; auto. Qed.
 
 Lemma inner_status_plug (x : ctx) (e : err) : inner_status (plug x e) = inner_status e.
-Proof. induction x as [|[t|o] r IH]; cbn [plug inner_status]; auto. Qed.
+Proof. induction x as [|[t|t|o] r IH]; cbn [plug inner_status]; auto. Qed.
 
 Lemma status_code_plug_sentinel (x : ctx) (c : class) :
   status_code (plug x (Sentinel c)) = Unknown.
@@ -180,11 +181,15 @@ Lemma plug_marker_free (x : ctx) (e : err) :
   ctx_marker_free x = true -> ctx_embeds x = [] -> has_marker (message e) = false ->
   has_marker (message (plug x e)) = false.
 Proof.
-  intros Hx He Hl. induction x as [|[t|o] r IH]; [exact Hl| |discriminate He].
-  apply ctx_marker_free_cons in Hx as [Ht Hr]. cbn [frame_markers] in Ht.
-  cbn [plug message]. rewrite has_marker_app. cbn [has_marker existsb is_marker sep orb].
-  apply has_marker_count in Ht. rewrite Ht. cbn [orb].
-  apply IH; [exact Hr|exact He].
+  intros Hx He Hl. induction x as [|[t|t|o] r IH]; [exact Hl| | |discriminate He].
+  - apply ctx_marker_free_cons in Hx as [Ht Hr]. cbn [frame_markers] in Ht.
+    cbn [plug message]. rewrite has_marker_app. cbn [has_marker existsb is_marker sep orb].
+    apply has_marker_count in Ht. rewrite Ht. cbn [orb].
+    apply IH; [exact Hr|exact He].
+  - apply ctx_marker_free_cons in Hx as [Ht Hr]. cbn [frame_markers] in Ht.
+    cbn [plug message]. rewrite has_marker_app.
+    apply has_marker_count in Ht. rewrite Ht. cbn [orb].
+    apply IH; [exact Hr|exact He].
 Qed.
 
 (* with exactly one embed the message splits in three and the object is the middle segment *)
@@ -192,13 +197,18 @@ Lemma plug_one_embed_split (x : ctx) (e : err) (o : obj) :
   ctx_marker_free x = true -> ctx_embeds x = [o] -> has_marker (message e) = false ->
   exists pre post, split_marker (message (plug x e)) = [pre; [Json o]; post].
 Proof.
-  intros Hx He Hl. induction x as [|[t|o'] r IH]; [discriminate He| |].
+  intros Hx He Hl. induction x as [|[t|t|o'] r IH]; [discriminate He| | |].
   - apply ctx_marker_free_cons in Hx as [Ht Hr]. cbn [frame_markers] in Ht.
     apply has_marker_count in Ht.
     destruct (IH Hr He) as (pre & post & Hs).
     exists (t ++ sep :: pre), post. cbn [plug message].
     apply split_marker_app_free; [exact Ht|].
     apply split_marker_cons; [reflexivity|exact Hs].
+  - apply ctx_marker_free_cons in Hx as [Ht Hr]. cbn [frame_markers] in Ht.
+    apply has_marker_count in Ht.
+    destruct (IH Hr He) as (pre & post & Hs).
+    exists (t ++ pre), post. cbn [plug message].
+    apply split_marker_app_free; [exact Ht|exact Hs].
   - apply ctx_marker_free_cons in Hx as [_ Hr].
     cbn [ctx_embeds flat_map app] in He. injection He as Ho Hnil. subst o'.
     assert (Hm : has_marker (message (plug r e)) = false)
@@ -229,7 +239,9 @@ Lemma build_plug (x : ctx) (e : err) :
   ctx_marker_free x = true -> (length (ctx_embeds x) <= 1)%nat -> has_marker (message e) = false ->
   build x e = Some (plug x e).
 Proof.
-  intros Hx He Hl. induction x as [|[t|o] r IH]; [reflexivity| |].
+  intros Hx He Hl. induction x as [|[t|t|o] r IH]; [reflexivity| | |].
+  - apply ctx_marker_free_cons in Hx as [_ Hr]. cbn [build plug].
+    rewrite (IH Hr He). reflexivity.
   - apply ctx_marker_free_cons in Hx as [_ Hr]. cbn [build plug].
     rewrite (IH Hr He). reflexivity.
   - apply ctx_marker_free_cons in Hx as [_ Hr].
@@ -243,9 +255,10 @@ Qed.
 Lemma has_marker_plug_mono (x : ctx) (e : err) :
   has_marker (message e) = true -> has_marker (message (plug x e)) = true.
 Proof.
-  intros H. induction x as [|[t|o] r IH]; [exact H| |reflexivity].
-  cbn [plug message]. rewrite has_marker_app. cbn [has_marker existsb is_marker sep orb].
-  fold (has_marker (message (plug r e))). rewrite IH. apply orb_true_r.
+  intros H. induction x as [|[t|t|o] r IH]; [exact H| | |reflexivity].
+  - cbn [plug message]. rewrite has_marker_app. cbn [has_marker existsb is_marker sep orb].
+    fold (has_marker (message (plug r e))). rewrite IH. apply orb_true_r.
+  - cbn [plug message]. rewrite has_marker_app, IH. apply orb_true_r.
 Qed.
 
 (* EmbedObject refuses an error that already carries an object, however deeply wrapped *)
@@ -261,13 +274,17 @@ Lemma build_at_most_one_embed (x : ctx) (e e' : err) :
   e' = plug x e /\ (length (ctx_embeds x) <= 1)%nat
   /\ (ctx_embeds x <> [] -> has_marker (message e') = true).
 Proof.
-  revert e'. induction x as [|[t|o] r IH]; intros e' Hb Hl.
+  revert e'. induction x as [|[t|t|o] r IH]; intros e' Hb Hl.
   - cbn in Hb. injection Hb as <-. cbn. repeat split; [lia|congruence].
   - cbn [build] in Hb. destruct (build r e) as [e1|] eqn:Hr; [|discriminate].
     injection Hb as <-. destruct (IH e1 eq_refl Hl) as (-> & Hlen & Hm).
     cbn [plug ctx_embeds flat_map app]. repeat split; [exact Hlen|].
     intros Hne. cbn [message]. rewrite has_marker_app. cbn [has_marker existsb is_marker sep orb].
     fold (has_marker (message (plug r e))). rewrite (Hm Hne). apply orb_true_r.
+  - cbn [build] in Hb. destruct (build r e) as [e1|] eqn:Hr; [|discriminate].
+    injection Hb as <-. destruct (IH e1 eq_refl Hl) as (-> & Hlen & Hm).
+    cbn [plug ctx_embeds flat_map app]. repeat split; [exact Hlen|].
+    intros Hne. cbn [message]. rewrite has_marker_app, (Hm Hne). apply orb_true_r.
   - cbn [build] in Hb. destruct (build r e) as [e1|] eqn:Hr; [|discriminate].
     destruct (IH e1 eq_refl Hl) as (-> & Hlen & Hm).
     unfold embed_object in Hb.
@@ -345,11 +362,14 @@ Section Tables.
   Proof.
     intros Hu. unfold grpc_status_code. rewrite Hu. cbn [code_eqb code_num N.eqb negb].
     pose proof (find_row e) as Hf.
-    destruct e as [c|t|k m|t e|o e]; cbn [leaf_class] in *.
+    destruct e as [c|t|k m|t e|t e|o e]; cbn [leaf_class] in *.
     - destruct (to_code T c) as [k|] eqn:Hk; [reflexivity|].
       destruct (find _ _); [discriminate Hf|reflexivity].
     - destruct (find _ _); [discriminate Hf|reflexivity].
     - destruct (find _ _); [discriminate Hf|reflexivity].
+    - destruct (find _ _) as [row|]; cbn [option_map] in Hf.
+      + destruct (leaf_class e) as [c|]; [|discriminate]. rewrite <- Hf. reflexivity.
+      + destruct (leaf_class e) as [c|]; [rewrite <- Hf|]; reflexivity.
     - destruct (find _ _) as [row|]; cbn [option_map] in Hf.
       + destruct (leaf_class e) as [c|]; [|discriminate]. rewrite <- Hf. reflexivity.
       + destruct (leaf_class e) as [c|]; [rewrite <- Hf|]; reflexivity.
